@@ -108,6 +108,8 @@ class SymEval(Flow):
         self.ret_states = []
         self.invariants = {}    # id(loop) -> list of text
         self.backedge_hooks = []
+        self.call_log = []      # (call node, resolved, positional values, {kw: value}, state)
+        self.loop_heads = {}    # id(loop) -> head state of the last pass
 
     # ---- state plumbing ------------------------------------------------------
     def copy(self, st):
@@ -366,9 +368,11 @@ class SymEval(Flow):
     # calls ---------------------------------------------------------------------------
     def ev_Call(self, e, st):
         args = [self.ev(a, st) for a in e.args if not isinstance(a, ast.Starred)]
+        kws = {}
         for k in e.keywords:
-            self.ev(k.value, st)
+            kws[k.arg] = self.ev(k.value, st)
         r = self.model.resolve_call(e)
+        self.call_log.append((e, r, args, kws, st))
         if self.call_summary is not None:
             v = self.call_summary(self, e, r, args, st)
             if v is not None:
@@ -394,7 +398,7 @@ class SymEval(Flow):
             if a is not None and b is not None:
                 if a == b:
                     return Int(a)
-                m = Aff.atom((name, a.key(), b.key()))
+                m = Aff.atom((name, self._memo_id((name, a, b))))
                 if name == 'min':
                     st.facts = st.facts.add(a - m, b - m)
                 else:
@@ -406,7 +410,7 @@ class SymEval(Flow):
             if a is not None:
                 if st.facts.prove_ge0(a):
                     return Int(a)
-                return Int(Aff.atom(('abs', a.key())))
+                return Int(Aff.atom(('abs', self._memo_id(('abs', a)))))
         if name in ('list', 'tuple', 'reversed', 'sorted') and len(args) == 1:
             n = self.length(args[0], st)
             if n is not None:
@@ -429,6 +433,13 @@ class SymEval(Flow):
             if n is not None:
                 return Seq(n, 'list')
         return Obj(fresh('call'))
+
+    def _memo_id(self, k):
+        if not hasattr(self, '_memo'):
+            self._memo = {}
+        if k not in self._memo:
+            self._memo[k] = len(self._memo)
+        return self._memo[k]
 
     def _range(self, a, b, st):
         d = b - a
@@ -662,9 +673,10 @@ class SymEval(Flow):
                 body_in = self.cond(s.test, head.copy(), True)
             else:
                 body_in = self.bind_for(s, head.copy())
-            out = self.block(s.body, body_in)
+            outs = self.paths(s.body, body_in)
             self.loop_stack.pop()
-            backs = [x for x in [out] + frame['continue'] if x is not None]
+            self.loop_heads[id(s)] = head
+            backs = [x for x in outs + frame['continue'] if x is not None]
             keep = []
             for c in cands:
                 if all(self.holds(c, b) for b in backs):
@@ -688,6 +700,30 @@ class SymEval(Flow):
         for b in frame['break']:
             exit_st = self.j(exit_st, b)
         return exit_st
+
+    MAX_PATHS = 128
+
+    def paths(self, stmts, st, budget=None):
+        """end states of all paths through a statement list, forking at If statements
+        (path-sensitive inside loop bodies); infeasible branches are pruned"""
+        if budget is None:
+            budget = [self.MAX_PATHS]
+        for i, s in enumerate(stmts):
+            if st is None:
+                return []
+            if isinstance(s, ast.If) and budget[0] > 0:
+                self._record(s, st)
+                rest = list(stmts[i + 1:])
+                res = []
+                for branch, body in ((True, s.body), (False, s.orelse)):
+                    st2 = self.cond(s.test, st.copy(), branch)
+                    if st2.facts.infeasible():
+                        continue
+                    budget[0] -= 1
+                    res += self.paths(list(body) + rest, st2, budget)
+                return res
+            st = self.stmt(s, st)
+        return [st] if st is not None else []
 
     def extra_candidates(self, s, entry, assigned):
         return []
